@@ -30,9 +30,11 @@ fn do_instr(start: usize, hay: &str, needle: &str) -> Result<i32, RuntimeError> 
         Ok(1)
     } else {
         let mut i: usize = start - 1;
+        // compare bytes: positions are byte offsets, which might not be char boundaries
+        let hay = hay.as_bytes();
+        let needle = needle.as_bytes();
         while i + needle.len() <= hay.len() {
-            let sub = hay.get(i..(i + needle.len())).unwrap();
-            if sub == needle {
+            if hay.get(i..(i + needle.len())) == Some(needle) {
                 return Ok((i as i32) + 1);
             }
             i += 1;
